@@ -644,4 +644,20 @@ theorem C10_no_orphans_small_step (s : St) (hreg : ∀ p ∈ s.dir, p ∈ s.mana
 example : ∀ p ∈ (demo.run (fullGCSteps demo [])).dir, p ∈ living demo :=
   C10_no_orphans_small_step demo (by decide)
 
+/-!
+## OPEN (not proved; tied to the code by the run only)
+
+* OPEN: the lock semantics used by `okF` (RwLock of `MetaInformation`, META_LOCK as an exclusive
+  file lock) and the census inventory ("lists exactly the live tracked objects") are modelled,
+  not verified.
+* OPEN: that a `Segment` keeps its `SegmentMeta` alive while it writes (hypothesis `hlive` of
+  `C10_open_write_through_segment_ok`) rests on Rust ownership; which `MetaSource` case each
+  `tracked.map` / deserialize site falls in is by reading (the sites and the kinds of the
+  `new_segment_meta` calls are extracted).
+* OPEN (false as stated, see `C10_managed_rename_counterexample`): the after-crash statement for
+  crash images with an OLDER `.managed.json` — finding S2.
+* OPEN: overlapping collections (two `garbage_collect` in their delete phases at once) are
+  outside `FSt` (one selection in flight); the harness exercises them.
+-/
+
 end TantivyModel.C10
